@@ -769,7 +769,7 @@ func (g *Gen) appendOp(fr *Frame, st *State, site ssa.Instruction, c *ssa.CallCo
 					ok = false
 					break
 				}
-				content = fmt.Sprintf("(store %s (+ (soff %s) (slenS %s) %d) %s)", content, s.T, s.T, i, e.T)
+				content = fmt.Sprintf("(store %s (idx$ (soff %s) (+ (slenS %s) %d)) %s)", content, s.T, s.T, i, e.T)
 			}
 			if ok {
 				g.setHeap(st, name, hs, fmt.Sprintf("(store %s %s %s)", h, arr, content), arr)
@@ -782,8 +782,8 @@ func (g *Gen) appendOp(fr *Frame, st *State, site ssa.Instruction, c *ssa.CallCo
 		// append(s, t...): contents described by quantified facts
 		na := g.vc.freshConst(fr.id+"appc", "(Array Int "+srt+")")
 		g.setHeap(st, name, hs, fmt.Sprintf("(store %s %s %s)", h, arr, na), arr)
-		g.vc.assume("", fmt.Sprintf("(forall ((i Int)) (! (=> (and (<= 0 i) (< i (slenS %s))) (= (select %s i) (select (select %s (sarr %s)) (+ (soff %s) i)))) :pattern ((select %s i))))", s.T, na, h, s.T, s.T, na))
-		g.vc.assume("", fmt.Sprintf("(forall ((i Int)) (! (=> (and (<= 0 i) (< i (slenS %s))) (= (select %s (+ (slenS %s) i)) (select (select %s (sarr %s)) (+ (soff %s) i)))) :pattern ((select %s (+ (slenS %s) i)))))", x.T, na, s.T, h, x.T, x.T, na, s.T))
+		g.vc.assume("", fmt.Sprintf("(forall ((i Int)) (! (=> (and (<= 0 i) (< i (slenS %s))) (= (select %s (idx$ 0 i)) (select (select %s (sarr %s)) (idx$ (soff %s) i)))) :pattern ((select %s (idx$ 0 i)))))", s.T, na, h, s.T, s.T, na))
+		g.vc.assume("", fmt.Sprintf("(forall ((i Int)) (! (=> (and (<= 0 i) (< i (slenS %s))) (= (select %s (idx$ 0 (+ (slenS %s) i))) (select (select %s (sarr %s)) (idx$ (soff %s) i)))) :pattern ((select (select %s (sarr %s)) (idx$ (soff %s) i)))))", x.T, na, s.T, h, x.T, x.T, h, x.T, x.T))
 		cp := g.vc.freshConst(fr.id+"cap", "Int")
 		g.vc.assume("", fmt.Sprintf("(>= %s (+ (slenS %s) (slenS %s)))", cp, s.T, x.T))
 		return Val{T: fmt.Sprintf("(mk$Slice %s 0 (+ (slenS %s) (slenS %s)) %s)", arr, s.T, x.T, cp), S: "Slice", Ty: rt}
